@@ -60,6 +60,15 @@ RULES = {
     "exhausted-children-connected-on-branch": [A("ULE(x, 11)"), A("UGE(x, 8)"), A("UGE(z, 1)"), E("z", 20), E("x", 20),
                                                {"s": 0, "op": "min", "e": "x", "signed": False, "extra": []}, {"s": 0, "op": "branch"},
                                                A("x ^ ZeroExt(1, z) != 0", 1), E("z", 20, 1), E("x", 20, 1), E("x", 20, 0)],
+    # CompositedCacheMixin keys merged solvers by the names asked for; the solver spans every child connected to them.  A variable
+    # that expansion introduced and simplification removed again (b) stays a key of the old child; the merged solver cached under
+    # {b} must not survive an add to the y/z child (found at the thorough tier: z == 5 was lost, satisfiable() answered True)
+    "stale-merged-solver-under-leftover-name": [A("z == y"), {"s": 0, "op": "max", "e": "If(b, y, y + 1)", "signed": False, "extra": []},
+                                                {"s": 0, "op": "max", "e": "x", "signed": False, "extra": []},
+                                                {"s": 0, "op": "max", "e": "y", "signed": True,
+                                                 "extra": ["Or(And(x == 1, y == 5), And(x == 2, y == 0))"]},
+                                                E("b", 2), A("(z) == 5"), {"s": 0, "op": "add", "cs": ["ULT(z, 2)", "Not(b)"]},
+                                                {"s": 0, "op": "satisfiable", "extra": []}, E("z", 20)],
 }
 
 
